@@ -230,7 +230,7 @@ def part_convolve(ctx, cs):
     # sums whose padded size is a power of three / of two, and their neighbours, always
     special = set()
     for s in (3, 9, 27, 81, 243, 729, 4, 8, 16, 32, 64, 128, 256, 512, 6, 12, 24, 48, 96, 18, 54, 162, 486):
-        for tot in (s - 1, s, s + 1):
+        for tot in (s - 2, s - 1, s, s + 1, s + 2):
             for _ in range(3 if not thorough else 8):
                 a = rng.randrange(1, tot) if tot > 1 else 1
                 b = tot - a
